@@ -48,6 +48,11 @@ class Untranslatable(Exception):
 
 def _translate(z3, UNROLL=2):
     """-> (pre-state vars, post-state exprs, unwinding condition, description)"""
+    init_src = textwrap.dedent(inspect.getsource(BufferingDestination.__init__))
+    init = ast.parse(init_src).body[0]
+    assigns = [n for n in ast.walk(init) if isinstance(n, ast.Assign) and any(isinstance(t, ast.Attribute) and t.attr == "messages" for t in n.targets)]
+    if len(assigns) != 1 or not (isinstance(assigns[0].value, ast.List) and not assigns[0].value.elts):
+        raise Untranslatable("self.messages is not initialised to an empty list literal: the array-window model of list does not apply")
     src = textwrap.dedent(inspect.getsource(BufferingDestination.__call__))
     fn = ast.parse(src).body[0]
     if not isinstance(fn, ast.FunctionDef) or [a.arg for a in fn.args.args] != ["self", "message"]:
@@ -164,9 +169,9 @@ def _concrete_eval(z3, n):
 
 def _real_eval(n):
     b = BufferingDestination()
-    b.messages = list(range(n))
+    b.messages.extend(range(n))
     b(n)
-    msgs = b.messages
+    msgs = list(b.messages)
     k = len(msgs)
     idx = [j for j in (0, 1, k - 2, k - 1) if 0 <= j < k]
     # same de-duplicated positions as _concrete_eval
@@ -244,10 +249,10 @@ def body_L1_replay(ctx, n):
     """Replays an SMT counterexample (pre-state size n) on the real class."""
     b = BufferingDestination()
     old = list(range(n))
-    b.messages = list(old)
+    b.messages.extend(old)  # the real container, whatever it is
     b("new")
     exp = (old + ["new"])[-CAP:]
-    ctx.check(b.messages == exp, "with %d buffered messages, one more call leaves %d messages %r..%r; expected the last %d of old+[new]", n, len(b.messages), b.messages[:2], b.messages[-2:], CAP)
+    ctx.check(list(b.messages) == exp, "with %d buffered messages, one more call leaves %d messages %r..%r; expected the last %d of old+[new]", n, len(b.messages), b.messages[:2], b.messages[-2:], CAP)
 
 
 # ----------------------------------------------------------------------------------------------
@@ -383,7 +388,47 @@ def body_E2(ctx):
         ctx.check(w.exc is None, "worker %s died with %r", w.name, w.exc)
     got = [m["i"] for m in d.got]
     allmsgs = list(range(nbuf + nlog))
-    sig = "C12:handover-race"
+    # Where was the logging thread, relative to the adder, when it handed a message to the
+    # start-up buffer?  (function-granular, read off the schedule)  The known defect covers
+    # specific windows only; a loss in any other window is a different violation.
+    steps = sched.log
+    a_idx = [k for k, (w, where) in enumerate(steps) if w == "A"]
+    a_send = [k for k in a_idx if steps[k][1].startswith("send:")]
+    # split the logging thread's steps per message (a new message starts when it enters Logger.write)
+    segments, cur, prev_fn = [], None, None
+    for k, (w, where) in enumerate(steps):
+        if w != "L":
+            continue
+        fn = where.split(":")[0]
+        if fn == "write" and prev_fn != "write":
+            cur = []
+            segments.append(cur)
+        if cur is not None:
+            cur.append((k, fn))
+        prev_fn = fn
+    lost = sorted(set(allmsgs) - set(got))
+    phases = set()
+    for mid in lost:
+        j = mid - nbuf
+        seg = segments[j] if 0 <= j < len(segments) else []
+        buf = [k for k, fn in seg if fn == "__call__"]
+        if not buf:
+            phases.add("found-no-destination")  # read Destinations._destinations while it was empty
+            continue
+        # the log entry says where the thread paused *before* executing that line; the append
+        # itself runs during the thread's next turn, which ends with its next log entry
+        later = [kk for kk, fn in seg if kk > buf[0]] + [kk for kk, (w, _) in enumerate(steps) if w == "L" and kk > buf[0]]
+        k = min(later) if later else len(steps)
+        if not a_idx or k < a_idx[0]:
+            phases.add("buffered-before-add")
+        elif a_send and a_send[0] < k < a_idx[-1]:
+            phases.add("buffered-during-redelivery")
+        elif k > a_idx[-1]:
+            phases.add("buffered-after-add-returned")
+        else:
+            phases.add("buffered-while-add-swaps-the-list")
+    kind = "duplicate" if len(got) != len(set(got)) else ("lost" if lost else ("out-of-order" if got != sorted(got) else "ok"))
+    sig = "C12:handover-race:%s%s" % (kind, (":" + "+".join(sorted(phases))) if phases else "")
     ctx.check(len(got) == len(set(got)), "a message was delivered twice across the hand-over: %r (schedule %s)", got, sched.render(), sig=sig)
     ctx.check(sorted(got) == allmsgs, "messages %r were lost across the hand-over: destination received %r (schedule %s)", sorted(set(allmsgs) - set(got)), got, sched.render(), sig=sig)
     ctx.check(got == sorted(got), "messages reached the new destination out of order: %r (schedule %s)", got, sched.render(), sig=sig)
